@@ -783,8 +783,8 @@ def burst_cases(seeds, prefix="bu"):
         ops = ["SEED %d" % seed, "CT " + T, "CS %s %s 10 ~" % (Sn, T), "CS %s %s 10 ~" % (S2, T), "PUB %s 1 61 0" % T]
         calls = []
         n = 900
-        for _ in range(rng.randrange(17, 40)):
-            kind = rng.choice(["GS", "GS", "GS", "STATS", "PULL", "ACK", "LTS", "GT"])
+        for _ in range(rng.choice([rng.randrange(17, 40), rng.randrange(40, 70)])):
+            kind = rng.choice(["GS", "GS", "GS", "STATS", "PULL", "ACK", "ACK", "LTS", "GT"])
             if kind == "GS":
                 calls.append("GS " + Sn)
             elif kind == "STATS":
@@ -860,7 +860,13 @@ def push_cases(seed, n, with_hang=False, prefix="ps"):
             if r == 0 and rng.random() < 0.4:
                 ops.append("PUB %s 1 %s 0" % (T, hx("later")))
         ops += ["STATS " + P0, "PULL %s 10 1" % PL]
-        if i % 2 == 0:
+        if i % 4 == 2:
+            # the topic goes first, then the (orphaned) push subscription; both names come back, the subscription
+            # without / with another endpoint: nothing may be POSTed for it to the old endpoint
+            ops += ["DT " + T, "REG", "ROUND", "DS " + P0, "REG", "CT " + T,
+                    "CS %s %s 10 %s" % (P0, T, "~" if i % 8 == 2 else hx("http://ep/e1")), "REG",
+                    "EP 0 1 200", "EP 1 1 200", "PUB %s 1 %s 0" % (T, hx("second-life")), "ROUND", "ROUND", "STATS " + P0, "REG"]
+        elif i % 2 == 0:
             ops += ["DS " + P0, "PUB %s 1 %s 0" % (T, hx("after-delete")), "ROUND", "REG"]
         else:
             ops += ["LOOP 40 2", "STATS " + P0]
@@ -958,4 +964,71 @@ def cancel_woken_cases(ks, prefix="cw"):
             ops += ["YIELD %d" % k, "CANCEL 900", "Q", "STATS " + Sn, "JOIN 901", "STATS " + Sn,
                     "ADV %d" % (10200 * MS), "STATS " + Sn, "JOIN 901", "STATS " + Sn, "JOIN 900"]
             cases.append(("%s-g%d-k%d" % (prefix, ngs, k), ops))
+    return cases
+
+
+def woken_dropped_cases(fills=(0, 1, 15, 16, 17, 24), polls=(0, 1, 2, 3), prefix="wd"):
+    """The unary Pull handler itself, polled by the harness (XH): A (older) and a blocked Pull B wait; a Publish wakes
+    A; with `fill` requests put into the subscription's mailbox A is polled k times and dropped (XP) - at fill >= 16 A
+    is then waiting for room in the mailbox with the notification consumed.  Variants: two messages, a stream as B,
+    A's drop replaced by nothing (control)."""
+    T, Sn = hx(tname("p", "t")), hx(sname("p", "s"))
+    cases = []
+    for variant in ("pull", "stream", "two"):
+        for fill in fills:
+            for k in polls:
+                ops = ["SEED %d" % (fill + k), "CT " + T, "CS %s %s 10 ~" % (Sn, T), "XH 1 %s 1" % Sn]
+                if variant == "stream":
+                    ops += ["SO 5 %s 1 0 10" % Sn, "SR 5"]
+                else:
+                    ops += ["BG 901 PULL %s 1 0" % Sn, "Q"]
+                ops += ["PUB %s %s" % (T, "1 61 0" if variant != "two" else "2 61 0 62 0"), "XP 1 %d %d" % (fill, k), "Q",
+                        "STATS " + Sn]
+                obs = "SR 5" if variant == "stream" else "JOIN 901"
+                ops += [obs, "STATS " + Sn, "ADV %d" % (10200 * MS), "STATS " + Sn, obs, "STATS " + Sn]
+                cases.append(("%s-%s-f%d-k%d" % (prefix, variant, fill, k), ops))
+    return cases
+
+
+def burst_shape_cases(seeds, prefix="bs"):
+    """Structured bursts around a deletion (all calls started without letting the runtime settle): a Publish the topic
+    takes up first, DeleteSubscription, g further calls, possibly a second DeleteSubscription, m further calls on the
+    same subscription (more than its mailbox holds, up to three times as many), possibly a Publish at the end; a
+    stream and a blocked Pull wait on the subscription beforehand and are observed afterwards."""
+    T, Sn, S2 = hx(tname("p", "t")), hx(sname("p", "s")), hx(sname("p", "s2"))
+    cases = []
+    for seed in seeds:
+        rng = random.Random(7000 + seed)
+        ops = ["SEED %d" % seed, "CT " + T, "CS %s %s 10 ~" % (Sn, T), "CS %s %s 10 ~" % (S2, T), "PUB %s 1 61 0" % T]
+        waiters = rng.random() < 0.6
+        if waiters:
+            ops += ["PULL %s 10 1" % Sn, "SO 1 %s 10 0 10" % Sn, "SR 1", "BG 800 PULL %s 1 0" % Sn, "Q"]
+        filler = rng.choice(["GS", "ACK", "MIX"])
+
+        def fill():
+            k = filler if filler != "MIX" else rng.choice(["GS", "ACK", "MOD", "PULL"])
+            return {"GS": "GS " + Sn, "ACK": "ACK %s 1 %s" % (Sn, hx("1")), "MOD": "MOD %s 0 1 %s" % (Sn, hx("1")),
+                    "PULL": "PULL %s 1 1" % Sn}[k]
+        calls = []
+        if rng.random() < 0.6:
+            calls.append("PUB %s 2 62 0 63 0" % T)
+        calls.append("DS " + Sn)
+        calls += [fill() for _ in range(rng.choice([0, 1, 5, 15, 16]))]
+        if rng.random() < 0.5:
+            calls.append("DS " + Sn)
+        calls += [fill() for _ in range(rng.choice([16, 17, 24, 32, 40, 48]))]
+        if rng.random() < 0.7:
+            calls.append("PUB %s 1 64 0" % T)
+        ids = []
+        n = 900
+        for c in calls:
+            ops.append("BG %d %s" % (n, c))
+            ids.append(n)
+            n += 1
+        ops.append("Q")
+        ops += ["JOIN %d" % i for i in ids]
+        if waiters:
+            ops += ["SR 1", "JOIN 800"]
+        ops += ["GS " + Sn, "GS " + S2, "GT " + T, "PUB %s 1 65 0" % T, "PULL %s 10 1" % S2, "LTS %s 0 -" % T]
+        cases.append(("%s%d" % (prefix, seed), ops))
     return cases
